@@ -123,6 +123,33 @@ class Path:
         self.notes = []
         self.covers = set()
         self.check_obligations = True
+        self.quantified = False  # set by harnesses whose contracts contain quantifiers
+        self.stop_at = None  # frontier exploration: end the path before making decision number stop_at
+        self.s_full = z3.Solver()
+        self.s_full.set("timeout", solver.timeout_ms)
+        self.s_qf = z3.Solver()
+        self.s_qf.set("timeout", 3000)
+
+    def _add_pc(self, f):
+        self.pc.append(f)
+        self.s_full.add(f)
+        if not (self.quantified and _has_quantifier(f)):
+            self.s_qf.add(f)
+
+    def _check(self, solver, extra):
+        t0 = time.time()
+        solver.push()
+        try:
+            for e in extra:
+                solver.add(e)
+            r = solver.check()
+            m = solver.model() if r == z3.sat else None
+            reason = solver.reason_unknown() if r == z3.unknown else None
+        finally:
+            solver.pop()
+        self.solver.checks += 1
+        self.solver.time += time.time() - t0
+        return r, m, reason
 
     # -- path condition ------------------------------------------------
     def assume(self, f):
@@ -135,13 +162,13 @@ class Path:
             return
         if z3.is_false(f):
             raise PathEnd("assume False")
-        self.pc.append(f)
+        self._add_pc(f)
         self._learn(f, True)
 
     def assume_checked(self, f):
         """assume and end the path if it became infeasible."""
         self.assume(f)
-        r, _, _ = self.solver.check([g for g in self.pc if not _has_quantifier(g)])
+        r, _, _ = self._check(self.s_qf, [])
         if r == z3.unsat:
             raise PathEnd("infeasible")
 
@@ -155,8 +182,7 @@ class Path:
 
     def feasible(self, f):
         # quantified conjuncts are dropped for feasibility: an over-approximation (more paths, never fewer)
-        qf = [g for g in self.pc if not _has_quantifier(g)]
-        r, _, _ = self.solver.check(qf + [f])
+        r, _, _ = self._check(self.s_qf, [f])
         return r != z3.unsat
 
     # -- forking --------------------------------------------------------
@@ -178,6 +204,8 @@ class Path:
         if k is not None:
             return k
         d = self._next_decision()
+        if d is None and self.stop_at is not None and len(self.taken) >= self.stop_at:
+            raise PathEnd("frontier")
         if d is None:
             t = self.feasible(c)
             f = self.feasible(z3.Not(c))
@@ -192,7 +220,7 @@ class Path:
                 raise PathEnd("infeasible")
         self.taken.append(d)
         lit = c if d else z3.Not(c)
-        self.pc.append(lit)
+        self._add_pc(lit)
         self._learn(c, bool(d))
         return bool(d)
 
@@ -201,6 +229,8 @@ class Path:
         if n == 1:
             return 0
         d = self._next_decision()
+        if d is None and self.stop_at is not None and len(self.taken) >= self.stop_at:
+            raise PathEnd("frontier")
         if d is None:
             for i in range(1, n):
                 self.alts.append(self.taken + [i])
@@ -218,7 +248,7 @@ class Path:
                 st, model = "discharged", None
             else:
                 # still need the path to be feasible for this to be a failure
-                r, m, _ = self.solver.check(self.pc)
+                r, m, _ = self._check(self.s_full, [])
                 st, model = ("failed", self._model(m)) if r == z3.sat else (
                     ("discharged", None) if r == z3.unsat else ("undecided", None))
             self.obligations.append(Obligation(name, st, time.time() - t0, model, "z3", prop, self.path_id, detail))
@@ -227,7 +257,7 @@ class Path:
         if z3.is_true(fs):
             self.obligations.append(Obligation(name, "discharged", time.time() - t0, None, "simplify", prop, self.path_id, detail))
             return True
-        r, m, reason = self.solver.check(self.pc + [z3.Not(fs)])
+        r, m, reason = self._check(self.s_full, [z3.Not(fs)])
         backend = "z3"
         if r == z3.unknown:
             r2 = self.solver.check_cvc5(self.pc + [z3.Not(fs)])
@@ -250,8 +280,7 @@ class Path:
         """Reachability cover: recorded only if the path condition is satisfiable here (vacuity guard)."""
         if name in self.covers:
             return
-        qf = [f for f in self.pc if not _has_quantifier(f)]
-        r, _, _ = self.solver.check(qf)
+        r, _, _ = self._check(self.s_qf, [])
         if r == z3.sat:
             self.covers.add(name)
 
